@@ -60,6 +60,8 @@ pub struct Scenario {
     pub old_plain: Bytes,
     /// every plaintext written while building the scenario
     pub plaintexts: Vec<Bytes>,
+    /// prefixes asked of `list_with_delimiter` (besides the root)
+    pub list_prefixes: Vec<String>,
 }
 
 pub fn sizes() -> Vec<usize> {
@@ -160,7 +162,129 @@ pub async fn build_scenario(size: usize, writer: Writer) -> Scenario {
         old_meta,
         old_plain: p_old.clone(),
         plaintexts: vec![p_old, p1, p2, p3],
+        list_prefixes: vec!["a".into()],
     }
+}
+
+/// The path of a logical key or backend object given in its canonical
+/// (percent-encoded) spelling, as listings and snapshots report it.
+pub fn path_of(key: &str) -> Path {
+    Path::parse(key).unwrap_or_else(|_| Path::from(key))
+}
+
+/// `vcore::ctlstore::restore` for content whose paths may carry percent-
+/// encoded characters (they must not be encoded a second time).
+pub fn restore_raw(content: &Content) -> Arc<InMemory> {
+    let store = InMemory::new();
+    for (k, v) in content {
+        vcore::util::now(store.put(&path_of(k), v.clone().into())).expect("put InMemory");
+    }
+    Arc::new(store)
+}
+
+// ---------------------------------------------------------------------------
+// a key universe that is adversarial for string handling
+
+/// Logical keys (as the caller spells them) whose names collide under sloppy
+/// path handling: the same characters with the `/` in different places,
+/// prefixes and suffixes of one another, case variants, segments with
+/// characters that need percent-encoding (one of them spelling an encoded
+/// `/`).
+pub const UNIVERSE: [&str; 14] = [
+    "a", "ab", "abc", "a/b", "a/bc", "ab/c", "a/b/c", "col/1/23", "col/12/3", "col/123", "A/bc", "a/BC", "a%2Fbc", "a/b#c",
+];
+
+/// How two keys of the universe relate (signature part).
+pub fn pair_class(a: &str, b: &str) -> &'static str {
+    let squash = |k: &str| k.replace('/', "");
+    if squash(a) == squash(b) {
+        "same-characters-other-segmentation"
+    } else if a.eq_ignore_ascii_case(b) {
+        "case-variant"
+    } else if a.contains('%') || b.contains('%') {
+        "percent-encoded-segment"
+    } else if a.starts_with(b) || b.starts_with(a) || a.ends_with(b) || b.ends_with(a) {
+        "prefix-or-suffix"
+    } else {
+        "unrelated-names"
+    }
+}
+
+/// Every key of [`UNIVERSE`] holds its own `size`-byte payload (same size,
+/// different bytes), written through a real `EncryptedStore` (chunk size 16)
+/// by `writer` (Put or Multipart; Copy: put under a scratch name and copied).
+pub async fn build_universe(size: usize, writer: Writer) -> Scenario {
+    anda_db_utils::verif::set_clock(Some((1_700_000_000_000, 1000)));
+    let inner = Arc::new(InMemory::new());
+    let store = enc(inner.clone());
+    let mut original = BTreeMap::new();
+    let mut plaintexts = Vec::new();
+    let mut keys: Vec<(String, Bytes)> = Vec::new();
+    for (i, user) in UNIVERSE.iter().enumerate() {
+        let path = Path::from(*user);
+        let plain = payload(size, 20 + i as u8);
+        match writer {
+            Writer::Put => {
+                store.put(&path, plain.clone().into()).await.expect("put");
+            }
+            Writer::Multipart => {
+                let mut up = store.put_multipart_opts(&path, PutMultipartOptions::default()).await.expect("multipart");
+                let parts = [(size / 2) as u32, (size - size / 2) as u32];
+                for p in split_parts(&plain, &parts) {
+                    up.put_part(p).await.expect("part");
+                }
+                up.complete().await.expect("complete");
+            }
+            Writer::Copy | Writer::Rename => {
+                let tmp = Path::from(format!("tmp-{i}"));
+                store.put(&tmp, plain.clone().into()).await.expect("put");
+                store.rename(&tmp, &path).await.expect("rename");
+            }
+        }
+        keys.push((path.to_string(), plain.clone()));
+        plaintexts.push(plain);
+    }
+    let base = snapshot(&inner);
+    for (k, plain) in keys {
+        let m = store.head(&path_of(&k)).await.expect("head");
+        original.insert(k, Original { plain, e_tag: m.e_tag, lm_ms: m.last_modified.timestamp_millis(), meta_known: true });
+    }
+    let mut sym = BTreeMap::new();
+    for p in base.keys() {
+        let name = if p.starts_with("meta/") { p.clone() } else { format!("gen/{}/CUR", key_of(p)) };
+        assert!(sym.insert(name, p.clone()).is_none(), "two current generations for one key");
+    }
+    assert_eq!(sym.len(), 2 * UNIVERSE.len(), "one document and one generation object per key");
+    Scenario {
+        sym,
+        size,
+        writer,
+        base,
+        original,
+        old_gen_path: String::new(),
+        old_meta: Bytes::new(),
+        old_plain: Bytes::new(),
+        plaintexts,
+        list_prefixes: vec!["a".into(), "ab".into(), "col".into(), "col/1".into(), "A".into()],
+    }
+}
+
+/// Every cross-key transplant between every ORDERED pair of keys: the
+/// metadata document alone, the ciphertext alone (into the target's current
+/// generation object), and both together (the source's document plus its
+/// ciphertext under the generation name that document points at).
+pub fn cross_key_sites(sc: &Scenario) -> Vec<Tamper> {
+    let mut out = Vec::new();
+    for from in sc.original.keys() {
+        for to in sc.original.keys() {
+            if from != to {
+                for what in [Cross::Meta, Cross::Payload, Cross::Both] {
+                    out.push(Tamper::CrossKey { from: from.clone(), to: to.clone(), what });
+                }
+            }
+        }
+    }
+    out
 }
 
 // ---------------------------------------------------------------------------
@@ -181,6 +305,11 @@ pub enum CborEdit {
     /// probe (two edits at once): strip an, at, av, g, m, c so the document
     /// looks like pre-authentication legacy metadata, and alter the size
     StripAndResize(u64),
+    /// strip an, at, av, g, m (the legacy look) and replace the token `e`:
+    /// the deterministic witness of what a single bit flip in the length
+    /// header of `e` does when the random token happens to re-frame into a
+    /// well-formed map that has lost its trailing fields
+    StripAndRetag,
 }
 
 #[derive(Clone, Debug, PartialEq, Eq, Serialize, Deserialize)]
@@ -205,6 +334,19 @@ pub enum Tamper {
     /// legacy look and place its ciphertext where legacy metadata points
     /// (`data/<key>`)
     StripAndRelocate { key: String },
+    /// the backend objects of logical key `from` are transplanted onto key
+    /// `to` (one-way; `from` keeps its own)
+    CrossKey { from: String, to: String, what: Cross },
+}
+
+#[derive(Clone, Copy, Debug, PartialEq, Eq, Serialize, Deserialize)]
+pub enum Cross {
+    /// `meta/<to>` := `meta/<from>`
+    Meta,
+    /// the current generation object of `to` := the ciphertext of `from`
+    Payload,
+    /// `meta/<to>` := `meta/<from>` and `gen/<to>/<g of from>` := the ciphertext of `from`
+    Both,
 }
 
 #[derive(Clone, Copy, Debug, PartialEq, Eq, Serialize, Deserialize)]
@@ -260,6 +402,7 @@ impl Tamper {
                 CborEdit::DupLastTag => "cbor-append-t".into(),
                 CborEdit::SwapTags(..) => "cbor-swap-t[i,j]".into(),
                 CborEdit::StripAndResize(_) => "probe-strip-all+resize".into(),
+                CborEdit::StripAndRetag => "cbor-strip-to-legacy-look+retag".into(),
                 CborEdit::CopyFields { fields, from } => format!(
                     "cbor-copy-{}-from-{}",
                     fields.join("+"),
@@ -289,6 +432,15 @@ impl Tamper {
             ),
             Tamper::Rollback => "probe-rollback".into(),
             Tamper::StripAndRelocate { .. } => "probe-strip-all+relocate-payload".into(),
+            Tamper::CrossKey { from, to, what } => format!(
+                "cross-key-{}/{}",
+                match what {
+                    Cross::Meta => "metadata",
+                    Cross::Payload => "payload",
+                    Cross::Both => "metadata+payload",
+                },
+                pair_class(from, to)
+            ),
         }
     }
 
@@ -304,6 +456,7 @@ impl Tamper {
             Tamper::ReplaceObject { dst, .. } => vec![dst],
             Tamper::Rollback => return vec!["a".into()],
             Tamper::StripAndRelocate { key } | Tamper::Compound { key, .. } => return vec![key.clone()],
+            Tamper::CrossKey { to, .. } => return vec![to.clone()],
         };
         let mut out: Vec<String> = paths.into_iter().map(|p| key_of(p)).collect();
         out.sort();
@@ -320,6 +473,89 @@ pub fn looks_legacy(doc: &[u8]) -> bool {
         Ok(Cbor::Map(m)) => !m.iter().any(|(k, _)| matches!(k, Cbor::Text(t) if LEGACY_LOOK.contains(&t.as_str()))),
         _ => false,
     }
+}
+
+/// [`looks_legacy`] decided by a walker that is MORE tolerant than any CBOR
+/// decoder (no UTF-8 validation of texts, trailing bytes ignored, non-text
+/// keys skipped): whatever document the store manages to decode without the
+/// keys an / at / av / g, this says `true` for. Keeps the naming of the
+/// recorded legacy-look shapes independent of decoder strictness when a bit
+/// flip re-frames the map over a run's random bytes.
+pub fn looks_legacy_lenient(doc: &[u8]) -> bool {
+    // (major type, argument, position after the head); `None` = malformed
+    fn head(d: &[u8], at: usize) -> Option<(u8, Option<u64>, usize)> {
+        let b = *d.get(at)?;
+        let (major, info) = (b >> 5, b & 0x1f);
+        let (arg, next) = match info {
+            0..=23 => (Some(info as u64), at + 1),
+            24 => (Some(*d.get(at + 1)? as u64), at + 2),
+            25 => (Some(u16::from_be_bytes(d.get(at + 1..at + 3)?.try_into().ok()?) as u64), at + 3),
+            26 => (Some(u32::from_be_bytes(d.get(at + 1..at + 5)?.try_into().ok()?) as u64), at + 5),
+            27 => (Some(u64::from_be_bytes(d.get(at + 1..at + 9)?.try_into().ok()?)), at + 9),
+            31 => (None, at + 1),
+            _ => return None,
+        };
+        Some((major, arg, next))
+    }
+    // position after the item at `at`
+    fn skip(d: &[u8], at: usize, depth: u32) -> Option<usize> {
+        if depth > 64 {
+            return None;
+        }
+        let (major, arg, mut pos) = head(d, at)?;
+        match (major, arg) {
+            (0 | 1, Some(_)) => Some(pos),
+            (2 | 3, Some(n)) => {
+                let end = pos.checked_add(usize::try_from(n).ok()?)?;
+                (end <= d.len()).then_some(end)
+            }
+            (2 | 3, None) => loop {
+                if *d.get(pos)? == 0xff {
+                    break Some(pos + 1);
+                }
+                pos = skip(d, pos, depth + 1)?;
+            },
+            (4 | 5, Some(n)) => {
+                let items = if major == 5 { n.checked_mul(2)? } else { n };
+                for _ in 0..items {
+                    pos = skip(d, pos, depth + 1)?;
+                }
+                Some(pos)
+            }
+            (4 | 5, None) => loop {
+                if *d.get(pos)? == 0xff {
+                    break Some(pos + 1);
+                }
+                pos = skip(d, pos, depth + 1)?;
+            },
+            (6, Some(_)) => skip(d, pos, depth + 1),
+            (7, Some(_)) => Some(pos),
+            _ => None,
+        }
+    }
+    let Some((5, Some(pairs), mut pos)) = head(doc, 0) else {
+        return false;
+    };
+    for _ in 0..pairs {
+        let Some((major, arg, after_head)) = head(doc, pos) else {
+            return false;
+        };
+        let Some(after_key) = skip(doc, pos, 0) else {
+            return false;
+        };
+        if major == 3
+            && let Some(n) = arg
+            && let Some(name) = doc.get(after_head..after_head + n as usize)
+            && LEGACY_LOOK.iter().any(|f| f.as_bytes() == name)
+        {
+            return false;
+        }
+        let Some(after_value) = skip(doc, after_key, 0) else {
+            return false;
+        };
+        pos = after_value;
+    }
+    true
 }
 
 /// `meta/<key>` or `gen/<key>/<generation>` -> `<key>`.
@@ -417,6 +653,10 @@ fn edit_doc(doc: &[u8], edit: &CborEdit, other: &dyn Fn(&str) -> Option<Bytes>) 
             m.retain(|(k, _)| !matches!(k, Cbor::Text(t) if STRIP_ALL.contains(&t.as_str())));
             *field(m, "s")? = Cbor::Integer((*n).into());
         }
+        CborEdit::StripAndRetag => {
+            m.retain(|(k, _)| !matches!(k, Cbor::Text(t) if COMPOUND_FIELDS.contains(&t.as_str())));
+            *field(m, "e")? = Cbor::Text("forged-token".into());
+        }
         CborEdit::CopyFields { fields, from } => {
             let src = other(from)?;
             for f in fields {
@@ -447,6 +687,7 @@ pub fn apply_tamper(sc: &Scenario, t: &Tamper) -> Option<Content> {
         Tamper::Rollback => Tamper::Rollback,
         Tamper::StripAndRelocate { key } => Tamper::StripAndRelocate { key },
         c @ Tamper::Compound { .. } => c,
+        c @ Tamper::CrossKey { .. } => c,
     };
     match t {
         Tamper::Flip { path, byte, bit } => {
@@ -523,6 +764,26 @@ pub fn apply_tamper(sc: &Scenario, t: &Tamper) -> Option<Content> {
             if let Some(src) = src {
                 let payload = c.get(sc.sym.get(&format!("gen/{src}/CUR"))?)?.clone();
                 c.insert(format!("data/{key}"), payload);
+            }
+        }
+        Tamper::CrossKey { from, to, what } => {
+            let (mfrom, mto) = (format!("meta/{from}"), format!("meta/{to}"));
+            let gen_from = sc.sym.get(&format!("gen/{from}/CUR"))?.clone();
+            let gen_to = sc.sym.get(&format!("gen/{to}/CUR"))?.clone();
+            let (doc, ct) = (c.get(&mfrom)?.clone(), c.get(&gen_from)?.clone());
+            c.get(&mto)?;
+            match what {
+                Cross::Meta => {
+                    c.insert(mto, doc);
+                }
+                Cross::Payload => {
+                    c.insert(gen_to, ct);
+                }
+                Cross::Both => {
+                    let g = gen_from.rsplit_once('/')?.1;
+                    c.insert(mto, doc);
+                    c.insert(format!("gen/{to}/{g}"), ct);
+                }
             }
         }
         Tamper::StripAndRelocate { key } => {
@@ -673,6 +934,7 @@ pub fn sites(sc: &Scenario, bits: &[u8]) -> Vec<Tamper> {
             }
         }
         push(&mut out, CborEdit::DupLastTag);
+        push(&mut out, CborEdit::StripAndRetag);
         push(&mut out, CborEdit::StripAndResize(size + 1));
         push(&mut out, CborEdit::StripAndResize(size + CS + 1));
         // values taken from another existing document: another key's, and
@@ -778,10 +1040,12 @@ pub fn reads_for(key: &str, len: u64, full: bool, out: &mut Vec<Read>) {
     out.push(Read::Ranges { key: k.clone(), rs: vec![(0, CS.min(len.max(1))), (1, 2)] });
 }
 
-pub fn list_reads(out: &mut Vec<Read>) {
+pub fn list_reads(sc: &Scenario, out: &mut Vec<Read>) {
     out.push(Read::List);
     out.push(Read::ListDelim { prefix: None });
-    out.push(Read::ListDelim { prefix: Some("a".into()) });
+    for p in &sc.list_prefixes {
+        out.push(Read::ListDelim { prefix: Some(p.clone()) });
+    }
     out.push(Read::ListOff { off: "0".into() });
 }
 
@@ -876,7 +1140,7 @@ pub async fn do_read(sc: &Scenario, store: &dyn ObjectStore, rd: &Read, soft: &m
                 }),
                 ..Default::default()
             };
-            let res = match store.get_opts(&Path::from(key.as_str()), opts).await {
+            let res = match store.get_opts(&path_of(key), opts).await {
                 Err(_) => return Verdict::Failed,
                 Ok(r) => r,
             };
@@ -909,7 +1173,7 @@ pub async fn do_read(sc: &Scenario, store: &dyn ObjectStore, rd: &Read, soft: &m
         Read::Ranges { key, rs } => {
             let plain = &sc.original[key].plain;
             let ranges: Vec<std::ops::Range<u64>> = rs.iter().map(|(a, b)| *a..*b).collect();
-            match store.get_ranges(&Path::from(key.as_str()), &ranges).await {
+            match store.get_ranges(&path_of(key), &ranges).await {
                 Err(_) => Verdict::Failed,
                 Ok(v) => {
                     if v.len() != rs.len() {
@@ -932,7 +1196,7 @@ pub async fn do_read(sc: &Scenario, store: &dyn ObjectStore, rd: &Read, soft: &m
         }
         Read::Head { key } => {
             let o = &sc.original[key];
-            match store.head(&Path::from(key.as_str())).await {
+            match store.head(&path_of(key)).await {
                 Err(_) => Verdict::Failed,
                 Ok(m) => {
                     if m.size != o.plain.len() as u64 {
@@ -962,7 +1226,7 @@ pub async fn do_read(sc: &Scenario, store: &dyn ObjectStore, rd: &Read, soft: &m
             }
         }
         Read::ListDelim { prefix } => {
-            let p = prefix.as_ref().map(|p| Path::from(p.as_str()));
+            let p = prefix.as_ref().map(|p| path_of(p));
             match store.list_with_delimiter(p.as_ref()).await {
                 Err(_) => Verdict::Failed,
                 Ok(r) => {
@@ -992,13 +1256,13 @@ pub struct SiteOut {
 /// over a fresh inner store holding `content`. A panic inside a read is
 /// caught and counted as a failed read (it is not an answer).
 pub fn check_content(sc: &Scenario, content: &Content, touched: &[String], strict: bool) -> SiteOut {
-    let inner = restore(content);
+    let inner = restore_raw(content);
     let store = if strict { enc_strict(inner) } else { enc(inner) };
     let mut reads = Vec::new();
     for (k, o) in &sc.original {
         reads_for(k, o.plain.len() as u64, touched.contains(k), &mut reads);
     }
-    list_reads(&mut reads);
+    list_reads(sc, &mut reads);
     let mut out = SiteOut::default();
     for rd in &reads {
         one_read(sc, store.as_ref(), rd, &mut out);
@@ -1073,7 +1337,7 @@ pub fn stale_applicable(t: &Tamper, wide: bool) -> bool {
         Tamper::SwapObjects { a, b } => (hit(a) || hit(b)) && a != "gen/a/OLD" && b != "gen/a/OLD",
         Tamper::ReplaceObject { dst, src } => hit(dst) && src != "gen/a/OLD",
         Tamper::Compound { key, .. } => key == "a",
-        Tamper::Rollback | Tamper::StripAndRelocate { .. } => false,
+        Tamper::Rollback | Tamper::StripAndRelocate { .. } | Tamper::CrossKey { .. } => false,
     }
 }
 
@@ -1155,7 +1419,7 @@ pub fn check_content_stale_copy(sc: &Scenario, content: &Content, strict: bool) 
     alt.original.get_mut("a").unwrap().meta_known = false;
     let mut reads = Vec::new();
     reads_for(&target, o.plain.len() as u64, true, &mut reads);
-    list_reads(&mut reads);
+    list_reads(sc, &mut reads);
     for rd in &reads {
         one_read(&alt, store.as_ref(), rd, &mut out);
     }
@@ -1163,7 +1427,7 @@ pub fn check_content_stale_copy(sc: &Scenario, content: &Content, strict: bool) 
 }
 
 pub fn copy_target(key: &str) -> String {
-    format!("t-{}", key.replace('/', "_"))
+    format!("t-{}", key.replace(|c: char| !c.is_ascii_alphanumeric(), "_"))
 }
 
 /// A fresh instance over `content` copies (or renames) every touched key to
@@ -1172,7 +1436,7 @@ pub fn copy_target(key: &str) -> String {
 /// original bytes and size (token and commit time are the copy's own).
 /// Returns the outcome and the number of copies accepted / refused.
 pub fn check_content_via_copy(sc: &Scenario, content: &Content, touched: &[String], strict: bool, rename: bool) -> (SiteOut, u64, u64) {
-    let inner = restore(content);
+    let inner = restore_raw(content);
     let store = if strict { enc_strict(inner) } else { enc(inner) };
     let mut alt = sc.clone();
     let mut out = SiteOut::default();
@@ -1181,7 +1445,7 @@ pub fn check_content_via_copy(sc: &Scenario, content: &Content, touched: &[Strin
     for k in touched {
         let Some(o) = sc.original.get(k) else { continue };
         let target = copy_target(k);
-        let (from, to) = (Path::from(k.as_str()), Path::from(target.as_str()));
+        let (from, to) = (path_of(k), Path::from(target.as_str()));
         let r = std::panic::catch_unwind(std::panic::AssertUnwindSafe(|| {
             vcore::util::block_on(async { if rename { store.rename(&from, &to).await } else { store.copy(&from, &to).await } })
         }));
@@ -1195,7 +1459,7 @@ pub fn check_content_via_copy(sc: &Scenario, content: &Content, touched: &[Strin
         }
     }
     if accepted > 0 {
-        list_reads(&mut reads);
+        list_reads(sc, &mut reads);
     }
     for rd in &reads {
         one_read(&alt, store.as_ref(), rd, &mut out);
